@@ -15,7 +15,7 @@ def obligations(tier):
     obs = [
         ch("layout3", "harness.C17_sccwriter", timeout=T, functions=F, exhaustive=True,
            bounds="captions of three words with lengths out of {1,2,3,4,5,7,31,32,33,40}: hex words, odd parity, rows 1-15 consecutive ending at row 15, rows <= 32 columns, breaks only at spaces unless a word exceeds 32"),
-        ch("layout_long", "harness.C17_sccwriter", timeout=T, functions=F, exhaustive=True, bounds="4-10 words (two alternating lengths): up to several rows"),
+        ch("layout_long", "harness.C17_sccwriter", timeout=T, functions=F, exhaustive=True, bounds="4-10 words (two alternating lengths): up to several rows; the output is read back (rows of exactly 32 columns included)"),
         ch("charset", "harness.C17_sccwriter", timeout=T, functions=F, exhaustive=True, bounds="every character of the CEA-608 basic table (0x20-0x7E) at three positions in a word: write then read gives it back"),
         ch("reread2", "harness.C17_sccwriter", timeout=T, functions=F, exhaustive=True,
            bounds="two captions (one or two lines) 3 s / 1.6 s / 1 s / 0.7 s / 0.4 s / 0.2 s / 0.1 s / 0 s apart (the closer ones end inside the next cue's loading time): same words in order, one caption each, timecodes non-decreasing, each visible within three frames of its start"),
